@@ -4,8 +4,9 @@ import Driver.Proto
 /-
 Streams of C07.
   c07.handover  S:<kind>  op op …     op = R:<kind> (reload) | T:<kind> (reload with a request in flight on address 1)
+                                         | L:<kind> (reload while a request on address 1 outlives the graceful period)
      kinds: addresses served, e.g. 1, 12, 2, 21; suffix x = the configuration fails during setup; 3 = an address in use
-     out = step|step|…   step = <res>;fd=<f1>.<f2>;sk=<s1>.<s2>;p=<m1>.<m2>[;mid=<m>;str=<m>]
+     out = step|step|…   step = <res>;fd=<f1>.<f2>;sk=<s1>.<s2>;p=<m1>.<m2>;ni=<instances>[;mid=<m>][;str=<m>]
   c07.storm     recorded trace of a reload storm under concurrent clients (see harness/streams/c07.go)
 -/
 namespace Driver.C07
@@ -24,78 +25,13 @@ def parseKind (s : String) : Option Cfg :=
 def parseHOp (s : String) : Option HOp :=
   if s.startsWith "R:" then (parseKind (s.drop 2).toString).map .reload
   else if s.startsWith "T:" then (parseKind (s.drop 2).toString).map .straddle
+  else if s.startsWith "L:" then (parseKind (s.drop 2).toString).map .longflight
   else none
 
-def reloadHead (g : Nat) (m : M) (c : Cfg) : List Act :=
-  [.begin g c, .setup] ++ List.replicate (c.addrs.length + 1) .listen ++ [.serve, .stopOld]
-    ++ List.replicate m.cur.addrs.length .stop
-
-/-- the marker a fresh connection to `a` gets right now (the accepting instance answers), `-` if refused -/
-def probe (m : M) (a : Nat) : M × String :=
-  let id := m.nextConn
-  let g := if m.new.accepts a then m.new.gen else m.cur.gen
-  let m' := run m [.connect a, .accept g a, .respond id]
-  match m'.conns.find? (·.id == id) with
-  | some c => (m', match c.answered with | some k => toString k | none => "hang")
-  | none => (m', "-")
-
-/-- socket identities renamed in order of first appearance -/
-def rename (seen : List Nat) (m : M) (a : Nat) : List Nat × Nat :=
-  if m.fds a = 0 then (seen, 0)
-  else match seen.idxOf? (m.sock a) with
-    | some i => (seen, i + 1)
-    | none => (seen ++ [m.sock a], seen.length + 1)
-
-def lastRes (before : Nat) (m : M) : String :=
-  match (m.events.drop before).reverse.find? (fun e => match e with | .reloadOk _ => true | .reloadFailed => true | _ => false) with
-  | some (.reloadOk _) => "ok"
-  | some .reloadFailed => "err"
-  | _ => "none"
-
-def observe (seen : List Nat) (m : M) (res : String) (mid str : Option String) : M × List Nat × HObs :=
-  let (seen, s1) := rename seen m 1
-  let (seen, s2) := rename seen m 2
-  let f1 := m.fds 1
-  let f2 := m.fds 2
-  let (m, p1) := probe m 1
-  let (m, p2) := probe m 2
-  (m, seen, { res := res, fd1 := f1, fd2 := f2, sk1 := s1, sk2 := s2, p1 := p1, p2 := p2, mid := mid, str := str })
-
-def runOps : Nat → List Nat → M → List HOp → List HObs
-  | _, _, _, [] => []
-  | g, seen, m, .reload c :: rest =>
-    let before := m.events.length
-    let m := run m (reloadHead g m c ++ [.finish])
-    let res := lastRes before m
-    let (m, seen, o) := observe seen m res none none
-    o :: runOps (g + 1) seen m rest
-  | g, seen, m, .straddle c :: rest =>
-    let before := m.events.length
-    let sid := m.nextConn
-    let m := run m [.connect 1, .accept m.cur.gen 1]
-    let connected := m.nextConn != sid
-    let m := run m (reloadHead g m c)
-    let (m, mid) := probe m 1
-    let m := if connected then run m [.respond sid] else m
-    let str := if !connected then "-" else match m.conns.find? (·.id == sid) with
-      | some c => (match c.answered with | some k => toString k | none => "hang")
-      | none => "-"
-    let m := run m [.finish]
-    let res := lastRes before m
-    let (m, seen, o) := observe seen m res (some mid) (some str)
-    o :: runOps (g + 1) seen m rest
-
-/-- the model's observations of a hand-over case -/
-def handoverRun (c0 : Cfg) (hops : List HOp) : List HObs :=
-  let m := M.init busy c0.addrs
-  let (m, seen, o) := observe [] m "ok" none none
-  o :: runOps 2 seen m hops
-
 def showObs (o : HObs) : String :=
-  let base := s!"{o.res};fd={o.fd1}.{o.fd2};sk={o.sk1}.{o.sk2};p={o.p1}.{o.p2}"
-  match o.mid, o.str with
-  | some m, some s => s!"{base};mid={m};str={s}"
-  | _, _ => base
+  let base := s!"{o.res};fd={o.fd1}.{o.fd2};sk={o.sk1}.{o.sk2};p={o.p1}.{o.p2};ni={o.ni}"
+  let base := match o.mid with | some m => s!"{base};mid={m}" | none => base
+  match o.str with | some s => s!"{base};str={s}" | none => base
 
 def parseCase : List String → Option (Cfg × List HOp)
   | [] => none
@@ -108,7 +44,7 @@ def parseCase : List String → Option (Cfg × List HOp)
 def handoverModel (f : List String) : String :=
   match parseCase f with
   | none => "bad-case"
-  | some (c, hops) => "|".intercalate ((handoverRun c hops).map showObs)
+  | some (c, hops) => "|".intercalate ((handoverRun busy c hops).map showObs)
 
 def stripPrefix (p s : String) : Option String :=
   if s.startsWith p then some (s.drop p.length).toString else none
@@ -120,14 +56,16 @@ def pair (s : String) : Option (String × String) :=
 
 def parseObs (s : String) : Option HObs :=
   match s.splitOn ";" with
-  | r :: fd :: sk :: p :: rest => do
+  | r :: fd :: sk :: p :: ni :: rest => do
     let (f1, f2) ← pair (← stripPrefix "fd=" fd)
     let (s1, s2) ← pair (← stripPrefix "sk=" sk)
     let (p1, p2) ← pair (← stripPrefix "p=" p)
+    let ni ← (← stripPrefix "ni=" ni).toNat?
     let base : HObs := { res := r, fd1 := ← f1.toNat?, fd2 := ← f2.toNat?, sk1 := ← s1.toNat?, sk2 := ← s2.toNat?,
-                         p1 := p1, p2 := p2, mid := none, str := none }
+                         p1 := p1, p2 := p2, ni := ni, mid := none, str := none }
     match rest with
     | [] => pure base
+    | [t] => pure { base with str := some (← stripPrefix "str=" t) }
     | [m, t] => pure { base with mid := some (← stripPrefix "mid=" m), str := some (← stripPrefix "str=" t) }
     | _ => none
   | _ => none
@@ -173,9 +111,85 @@ def stormJudge (f : List String) (_out : String) : String :=
   | none => "bad:unparsable:"
   | some (rs, qs) => stormVerdict rs qs
 
+
+/-! c07.mixed  S:<servers>  R:<servers> …     servers = comma list of <kind t|u|b><address 1|2|3|9>, suffix x = setup fails
+      out = step|step|…   step = <res>;1t=<fds>:<answers>;1u=…;2t=…;2u=…;3t=…;3u=…    answers = <gen>:<address> or - -/
+
+def mixedBusy : List Nat := [18, 19]
+def mixedCodes : List Nat := [2, 3, 4, 5, 6, 7]
+
+def parseMSrv (s : String) : Option MSrv :=
+  match s.toList with
+  | [k, a] => do
+    let kind ← (match k with | 't' => some MKind.t | 'u' => some MKind.u | 'b' => some MKind.b | _ => none)
+    if a == '1' || a == '2' || a == '3' || a == '9' then some { kind := kind, addr := a.toNat - '0'.toNat } else none
+  | _ => none
+
+def parseMixedCfg (s : String) : Option (List MSrv × Bool) :=
+  let (s, fail) := if s.endsWith "x" then ((s.dropEnd 1).toString, true) else (s, false)
+  if s = "" then none else do
+    let srvs ← (s.splitOn ",").mapM parseMSrv
+    -- one server per address
+    if (srvs.map (·.addr)).eraseDups.length != srvs.length then none else some (srvs, fail)
+
+def parseMixedCase : List String → Option (Cfg × List Cfg)
+  | [] => none
+  | s :: ops =>
+    if !s.startsWith "S:" then none else
+    match parseMixedCfg (s.drop 2).toString, ops.mapM (fun o => if o.startsWith "R:" then parseMixedCfg (o.drop 2).toString else none) with
+    | some (s0, f0), some rs =>
+      if f0 || s0.any (·.addr == 9) then none
+      else some (mixedCfg s0 false, rs.map fun r => mixedCfg r.1 r.2)
+    | _, _ => none
+
+def cellName (x : Nat) : String := s!"{x / 2}{if x % 2 == 0 then "t" else "u"}"
+
+def showCell (x : Nat) (c : Nat × String) : String :=
+  s!"{cellName x}={c.1}:{if c.2 == "-" then "-" else s!"{c.2}:{x / 2}"}"
+
+def showMObs (o : MObs) : String :=
+  ";".intercalate (o.res :: (mixedCodes.zip o.cells).map fun p => showCell p.1 p.2)
+
+def mixedModel (f : List String) : String :=
+  match parseMixedCase f with
+  | none => "bad-case"
+  | some (c0, cs) => "|".intercalate ((mixedRun mixedBusy mixedCodes c0 cs).map showMObs)
+
+/-- an observed cell `<name>=<fds>:<answers>`: the answers must be a single `<gen>:<address>` with the address of the cell,
+or `-`; anything else (two different answers, an answer of another address's server) is a misroute (second component) -/
+def parseCell (x : Nat) (s : String) : Option ((Nat × String) × Bool) :=
+  match s.splitOn "=" with
+  | [n, v] =>
+    if n != cellName x then none else
+    match v.splitOn ":" with
+    | [fd, "-"] => fd.toNat?.map fun k => ((k, "-"), false)
+    | [fd, g, a] => do
+      let k ← fd.toNat?
+      if a == toString (x / 2) && g.toNat?.isSome then pure ((k, g), false) else pure ((k, v), true)
+    | fd :: _ => fd.toNat?.map fun k => ((k, v), true)
+    | _ => none
+  | _ => none
+
+def parseMObs (s : String) : Option MObs :=
+  match s.splitOn ";" with
+  | r :: cells =>
+    if cells.length != mixedCodes.length then none else do
+    let cs ← (mixedCodes.zip cells).mapM fun p => parseCell p.1 p.2
+    pure { res := r, cells := cs.map (·.1), mis := cs.any (·.2) }
+  | _ => none
+
+def mixedJudge (f : List String) (out : String) : String :=
+  match parseMixedCase f with
+  | none => if out = "bad-case" then "ok" else "bad:malformed-case-accepted:" ++ out
+  | some (c0, cs) =>
+    match (out.splitOn "|").mapM parseMObs with
+    | none => "bad:unparsable:" ++ out
+    | some obs => mixedVerdict mixedBusy mixedCodes c0 cs obs
+
 def streams : List Driver.Stream := [
   { name := "c07.handover", model := handoverModel, judge := handoverJudge },
-  { name := "c07.storm", model := stormModel, judge := stormJudge }
+  { name := "c07.storm", model := stormModel, judge := stormJudge },
+  { name := "c07.mixed", model := mixedModel, judge := mixedJudge }
 ]
 
 end Driver.C07
